@@ -70,6 +70,13 @@ def case(g, tier, ci):
     sops, sinfo = sg.sequence("s", npos=(1, 3), nch=(1, 3), SR=SR, N=(r.randint(2400, 2410) if seqx else None), raw_p=0.3,
                               kinds=("ramp",) if seqx else ("ramp", "sine"), flags_p=0.3, delays_p=0.5, filters_p=0.6,
                               sub_p=0.0 if seqx else 0.3, seq_p=0.3, waits=0.2, amp=100)
+    if ci % 2 == 0:
+        # sequencing values as a caller's own code may produce them: a bool, a whole float, a numpy integer -- a read-only
+        # call leaves them exactly as they are (the reference-level snapshot is type-aware)
+        for pos in range(1, sinfo["P"] + 1):
+            fld, v, kind = r.choice([("twait", 1, "bool"), ("twait", 0, "bool"), ("nrep", 2, "npint"), ("nrep", 3, "float"),
+                                     ("goto", 1, "npint"), ("jump_input", 1, "bool")])
+            sops.append({"op": "sq.setSeq", "id": "s", "pos": pos, "field": fld, "v": v, "_as": kind})
     ops += sops + [{"op": "sq.copy", "id": "s", "to": "s2"}]
     # a blueprint-only element queried, edited and queried again (cached SR / duration must not go stale)
     ops += [{"op": "el.new", "id": "e3"}, {"op": "el.addBP", "id": "e3", "ch": 1, "bp": "b"}, {"op": "el.addBP", "id": "e3", "ch": "B", "bp": "b"},
